@@ -384,14 +384,6 @@ Proof.
   - intros [c H]. split; [|tauto]. now exists (c, n).
 Qed.
 
-(* no node has two accepted observations => the comparator of transformAndSortObservations never reaches [0] *)
-Lemma tas_panics_nodup (acc : acc_t) : NoDup (map fst acc) -> tas_panics acc = false.
-Proof.
-  induction acc as [|a acc IH]; cbn [tas_panics map]; [reflexivity|]. intros N. inversion N as [|? ? Ha N']; subst.
-  rewrite (IH N'), orb_false_r. apply not_true_is_false. intros H. apply existsb_exists in H as (b & Hb & E).
-  apply andb_true_iff in E as [E _]. apply N.eqb_eq in E. apply Ha. rewrite E. now apply in_map.
-Qed.
-
 Section Inv.
   Variable edv : N -> observation -> N -> bool.
   Variable vrs : N -> N -> report -> bool.
